@@ -29,7 +29,12 @@ def file_map(*roots):
     return out
 
 
-def one_run(src_files, base, mode, threads, delays, label):
+def only_theory(fm, name):
+    """the files of one theory in a file map (out/<name>.eql.rs, out/<name>.digest, comp/<name>.eql/...)"""
+    return {k: h for k, h in fm.items() if k.split("/", 1)[1].startswith(name + ".")}
+
+
+def one_run(src_files, base, mode, threads, delays, label, rerun_without=None):
     shutil.rmtree(base, ignore_errors=True)
     ind, outd, compd = os.path.join(base, "in"), os.path.join(base, "out"), os.path.join(base, "comp")
     os.makedirs(ind)
@@ -50,6 +55,18 @@ def one_run(src_files, base, mode, threads, delays, label):
     r = subprocess.run(cmd, capture_output=True, text=True, env=env, timeout=900)
     if r.returncode != 0:
         raise vlib.ToolError(f"run {label} failed rc={r.returncode}: {r.stderr[-800:]}")
+    if rerun_without:
+        # incremental rebuild in the same directories: the outputs of one theory are removed, all others
+        # are up to date (skipped through their digests); the result must be the same files again
+        for root in (outd, compd):
+            if os.path.isdir(root):
+                for fn in os.listdir(root):
+                    if fn.startswith(rerun_without + "."):
+                        pth = os.path.join(root, fn)
+                        shutil.rmtree(pth) if os.path.isdir(pth) else os.remove(pth)
+        r = subprocess.run(cmd, capture_output=True, text=True, env=env, timeout=900)
+        if r.returncode != 0:
+            raise vlib.ToolError(f"rerun {label} failed rc={r.returncode}: {r.stderr[-800:]}")
     fm = file_map(("out", outd), ("comp", compd)) if mode == "component" else file_map(("out", outd))
     shutil.rmtree(base, ignore_errors=True)
     return fm
@@ -83,6 +100,25 @@ def run(tier, replay):
                 label = f"{g}/{mode}/run{i}(threads={threads},dir={sub})"
                 fm = one_run(files, os.path.join(work, sub, f"{g}_{mode}_{i}"), mode, threads, delays, label)
                 rows.append({"group": f"{g}/{mode}", "label": label, "out": fm})
+                nruns += 1
+                if i == 0:
+                    full = fm
+            names = sorted(files)
+            picked = names if thorough else rnd.sample(names, min(5, len(names)))
+            # incremental rebuild (same group as the full runs above: DetTrace compares consecutive rows of a group)
+            for k, fname in enumerate(picked[:(3 if thorough else 1)]):
+                th = fname[:-4]
+                label = f"{g}/{mode}/rebuilt-after-removing-outputs-of:{th}"
+                fm = one_run(files, os.path.join(work, "incr", f"{g}_{mode}_{k}"), mode, 2, None, label, rerun_without=th)
+                rows.append({"group": f"{g}/{mode}", "label": label, "out": fm})
+                nruns += 1
+            # the output for a theory must not depend on which other theories the same process compiled
+            # before it, nor on which of them were skipped as up to date
+            for k, fname in enumerate(picked):
+                th = fname[:-4]
+                alone = one_run({fname: files[fname]}, os.path.join(work, "solo", f"{g}_{mode}_{k}"), mode, 2, None, f"{g}/{mode}/alone:{th}")
+                rows.append({"group": f"{g}/{mode}/theory:{th}", "label": f"{g}/{mode}/with-siblings:{th}", "out": only_theory(full, th)})
+                rows.append({"group": f"{g}/{mode}/theory:{th}", "label": f"{g}/{mode}/alone:{th}", "out": only_theory(alone, th)})
                 nruns += 1
     trace = os.path.join(work, "trace.ndjson")
     vlib.write_ndjson(trace, rows)
